@@ -12,7 +12,7 @@ import (
 
 type Veneers struct {
 	Language string        `yaml:"language"`
-	Package  string        `yaml:"package"`
+	Package  string        `yaml:"package" jsonschema:"required"`
 	Builders []BuilderRule `yaml:"builders"`
 	Options  []OptionRule  `yaml:"options"`
 }
